@@ -67,6 +67,10 @@ def run_hdr(case):
         f2 = F()
         if f2.unpack(want + msg) is not True or bytes(f2.message) != msg or bytes(f2.header.pack()) != want:
             res.fail("C11/frame-unpack", "frame.unpack() lost data: message %r" % (bytes(f2.message),))
+        # a frame object that held another message before (the node's frame buffer is reused for every reception)
+        f4 = F(H(0o5, 9), b"previous message")
+        if f4.unpack(want + msg) is not True or bytes(f4.message) != msg or bytes(f4.pack()) != want + msg:
+            res.fail("C11/frame-unpack-into-used-frame", "unpack(header + %d bytes) into a frame that held 16 bytes: message %r" % (len(msg), bytes(f4.message)))
         # arbitrary buffers
         buf = bytes.fromhex(case["buf"])
         g = H()
@@ -88,6 +92,22 @@ def run_hdr(case):
         res.fail(exc_signature("C11/raises", e), repr(e))
     res.label("hdr")
     return res
+
+
+class FragmentLoss:
+    """the first k on-air attempts of the j-th frame of the judged message are lost (packet, or only its ACK)"""
+
+    def __init__(self, src, frame, k, what):
+        self.src, self.frame, self.k, self.what, self.n = str(src), frame, k, what, 0
+
+    def on_tx(self, pkt):
+        if pkt.is_ack or pkt.src.name != self.src or bytes(pkt.payload) != self.frame or self.n >= self.k:
+            return
+        self.n += 1
+        if self.what == "P":
+            pkt.drop = True
+        else:
+            pkt.drop_ack = True
 
 
 def run_frag(case):
@@ -123,6 +143,10 @@ def run_frag(case):
                 pass
             net.settle(300)
         out["n0"] = len(net.med.log)
+        if case.get("loss"):
+            j, k, what = case["loss"]
+            ref = rfrag.fragment(src, dst, fid, typ, msg)
+            net.med.fault = FragmentLoss(src, ref[min(j, len(ref) - 1)], k, what)
         h = L.Header(dst, typ)
         h.frame_id = fid
         if case.get("reserved"):
@@ -174,6 +198,19 @@ def run_frag(case):
     if out.get("ret") == "ValueError":
         res.fail("C11/refused-within-limit", "%d-byte message after %r refused (limit in effect %d, fragmentation %s)"
                  % (len(msg), case.get("pre"), maxlen, "on" if frag_on else "off"))
+        return res
+    if case.get("loss"):
+        # with lost attempts write() may give up; what it put on air must then be a prefix of the reference sequence, and
+        # a True result means the complete sequence went out
+        res.label("first-k-attempts-of-one-fragment-lost")
+        distinct = [g for i, g in enumerate(got) if i == 0 or got[i - 1] != g]
+        if out.get("ret") is True and distinct != want:
+            res.fail("C11/true-result-incomplete-sequence", "write() returned True after %d of %d frames (the first %d attempts of frame %d were lost)" % (
+                len(distinct), len(want), case["loss"][1], case["loss"][0]))
+        elif distinct != want[:len(distinct)]:
+            res.fail("C11/fragment-prefix", "with lost attempts the frames on air differ from the reference sequence")
+        if out.get("type_after") != typ:
+            res.fail("C11/caller-header-type-not-restored", "header.message_type is %r after sending, was %r" % (out.get("type_after"), typ))
         return res
     if out.get("ret") is not True:
         if not line:
@@ -277,14 +314,29 @@ def _after_earlier_messages():
                            "nodes": nodes, "bytes": True, "via_write": via_write, "before": before, "reserved": rsv}
 
 
+def _loss_cases(step):
+    """a direct write of 30 / 60 / 120 bytes; the first k attempts (k swept past the point where the sender gives up) of
+    its first, second or last frame are lost, as packets or as ACKs"""
+    def gen():
+        for n in (30, 60, 120):
+            for j in (0, 1, 99):
+                for what in ("P", "A"):
+                    for k in range(0, 260, step):
+                        yield {"kind": "direct", "msg": bytes((11 * i + n) & 0xFF for i in range(n)).hex(), "type": 70, "id": 900 + n, "src": 0o1, "dst": 0,
+                               "nodes": [0, 0o1], "bytes": True, "via_write": bool(k % 2), "loss": [j, k, what]}
+    return gen
+
+
 def parts(tier):
     if tier == "quick":
         return [Part("headers", "gen", _hdr_strategy, n=3000),
+                Part("fragment-attempts-lost-sweep", "enum", _loss_cases(5), exhaustive=True),
                 Part("write-after-earlier-messages", "enum", _after_earlier_messages, exhaustive=True),
                 Part("fragments-after-config-history-depth3", "enum", _history_cases(3), exhaustive=True),
                 Part("fragments-direct-all-lengths", "enum", _frag_cases(False, 2), exhaustive=True),
                 Part("fragments-line-all-lengths", "enum", _frag_cases(True, 1), exhaustive=True)]
     return [Part("headers", "gen", _hdr_strategy, n=200000),
+            Part("fragment-attempts-lost-sweep", "enum", _loss_cases(1), exhaustive=True),
             Part("write-after-earlier-messages", "enum", _after_earlier_messages, exhaustive=True),
             Part("fragments-after-config-history-depth5", "enum", _history_cases(5), exhaustive=True),
             Part("fragments-direct-all-lengths", "enum", _frag_cases(False, 40), exhaustive=True),
